@@ -19,8 +19,17 @@
     reachable from the empty cache by steps of those calls in any interleaving, each of which may fail, and by
     kills between any two steps); [deliver n] is the sequence of writes the repository's FetchRevision performs
     for project version [n]; [disk_complete]: every directory in the cache is a complete download;
-      [dawn_build_list_via obs ...]        BuildList when resolveProject answers [obs n] for project version n. *)
-From Dawn Require Import Mvs.Spec Mvs.Proofs_C10 Mvs.Cache Mvs.Proofs_Cache.
+      [dawn_build_list_via obs ...]        BuildList when resolveProject answers [obs n] for project version n.
+
+    The project's own resolution (Mvs/Load.v): [load_build_list obs ...] is Project.buildList after Load
+    (project_config.go loadConfigFile: BuildList's error is returned, otherwise its list is kept); [dreach deliver W w]
+    adds to the worlds above the damage the cache directory can suffer from outside dawn (an entry whose
+    configuration cannot be read any more, an entry that is gone).
+    The repository lookup (Mvs/Locate.v): [find_project_repository dial M p] is findProjectRepository with the memo [M]
+    of the resolver ([memo_reach]: after any lookups in any order); [locate] what it computes on a miss (the
+    well-known host, or dialing ever shorter prefixes of the path); [dial]: the addresses that answer. *)
+From Dawn Require Import Mvs.Spec Mvs.Proofs_C10 Mvs.Cache Mvs.Proofs_Cache Mvs.Load Mvs.Proofs_Load Mvs.Locate
+  Mvs.Proofs_Locate.
 
 (** every processing order, every finite universe (cycles included), every root requirement list:
     an error exactly when a reachable requirement cannot be resolved, otherwise exactly the MVS solution *)
@@ -104,6 +113,59 @@ Theorem build_list_cache_independent :
 Proof. exact Proofs_Cache.build_list_cache_independent. Qed.
 Print Assumptions build_list_cache_independent.
 
+(** answers that are each the universe's or an error -- whatever the reason: a cache entry that cannot be read, a
+    repository out of reach -- make the run fail or leave its answer unchanged; they never produce another list *)
+Theorem build_list_fails_or_same :
+  forall (U : universe) (W : node -> Prop), requirements_closed U W ->
+    forall (obs : node -> option summary), (forall n, W n -> obs n = resolve_project U n \/ obs n = None) ->
+    forall (root : config), (forall m, In m (map snd root) -> fst m = [] \/ W m) ->
+    forall (pick : list node -> nat) (fuel : nat), (u_fuel U (map snd root) <= fuel)%nat ->
+      dawn_build_list_via obs pick fuel root = Err \/
+      dawn_build_list_via obs pick fuel root = dawn_build_list pick fuel U root.
+Proof. exact Proofs_Load.via_fails_or_same. Qed.
+Print Assumptions build_list_fails_or_same.
+
+(** a cache that resolvers, faults, kills AND damage from outside have worked on: a returned resolveProject call
+    answered with the project's own configuration or with an error *)
+Theorem resolve_via_damaged_cache :
+  forall (U : universe) (deliver : node -> option (list wr)) (W : node -> Prop),
+    deliver_sound U deliver W -> key_sound U W ->
+    forall (D : disk) (cs : list call) (n : node) (b : bool) (r : option summary),
+      dreach deliver W (D, cs) -> In (mkCall n (PRet b r)) cs -> r = resolve_project U n \/ r = None.
+Proof. exact Proofs_Load.resolve_via_damaged_cache. Qed.
+Print Assumptions resolve_via_damaged_cache.
+
+(** the build list as the project resolves it: over any such cache, Load fails or Project.buildList is the
+    minimal-version-selection solution of the requirement graph (the list of the undamaged universe) *)
+Theorem load_fails_or_solution :
+  forall (U : universe) (deliver : node -> option (list wr)) (W : node -> Prop),
+    deliver_sound U deliver W -> key_sound U W -> requirements_closed U W ->
+    forall (obs : node -> option summary) (pick : list node -> nat) (fuel : nat) (root : config),
+      observed_damaged deliver W obs -> (forall m, In m (map snd root) -> fst m = [] \/ W m) ->
+      (u_fuel U (map snd root) <= fuel)%nat ->
+      load_build_list obs pick fuel root = Err \/
+      (exists l, load_build_list obs pick fuel root = Ok l /\ mvs_solution (reachable_from U (map snd root)) l
+                 /\ dawn_build_list pick fuel U root = Ok l).
+Proof. exact Proofs_Load.load_fails_or_solution. Qed.
+Print Assumptions load_fails_or_solution.
+
+(** the repository lookup does not depend on what the resolver looked up before (in which order the projects of a
+    repository were met): a memo hit is what a miss would compute *)
+Theorem find_repository_order_independent :
+  forall (dial : str -> bool) (M : memo) (p : str),
+    memo_reach dial M -> fst (find_project_repository dial M p) = locate dial (trim_path_version p).
+Proof. exact Proofs_Locate.find_repository_order_independent. Qed.
+Print Assumptions find_repository_order_independent.
+
+(** ... and it names the project that was asked for: the repository answers the dial, and its address joined with the
+    project path inside it is the looked-up path (a project is never handed the directory of its neighbour) *)
+Theorem find_repository_sound :
+  forall (dial : str -> bool) (M : memo) (p : str) (x : str * str),
+    memo_reach dial M -> clean_key (trim_path_version p) ->
+    fst (find_project_repository dial M p) = Some x -> rejoin x = trim_path_version p /\ dial (fst x) = true.
+Proof. exact Proofs_Locate.find_repository_sound. Qed.
+Print Assumptions find_repository_sound.
+
 (** the version order behind "highest": a total order on canonical versions with "none" least and the root's
     empty version greatest *)
 Theorem version_order_total :
@@ -153,4 +215,36 @@ Proof.
   - intros n s m Hn. simpl in Hn.
     repeat (destruct Hn as [<-|Hn]; [vm_compute; intros E; injection E as <-; simpl; intuition congruence|]).
     contradiction.
+Qed.
+
+(** the project-load model on the universe above: intact, Load keeps the solution; with the cache entry of c v1.2.0
+    unreadable it fails *)
+Example c10_load_example :
+  let a := [114; 47; 97] in let b := [114; 47; 98] in let c := [114; 47; 99] in let c2 := [114; 47; 99; 64; 118; 50] in
+  let v x y z := VSem (mkSV x y z []) in
+  let U := mkU [114] [((a, v 1 0 0), 1); ((b, v 1 0 0), 1); ((c, v 1 1 0), 1); ((c, v 1 2 0), 2); ((c2, v 2 0 0), 2)]
+               [((a, 1), mkSum [] [(c, v 1 1 0); (c2, v 2 0 0)]); ((b, 1), mkSum [] [(c, v 1 2 0)]);
+                ((c, 1), mkSum [] []); ((c, 2), mkSum [] [(a, v 1 0 0)])] [] [] [] in
+  let root := [(a, (a, v 1 0 0)); (b, (b, v 1 0 0))] in
+  load_build_list (obs_damaged U []) (fun _ => O) 20 root
+  = Ok [([], VRoot); (a, v 1 0 0); (b, v 1 0 0); (c, v 1 2 0); (c2, v 2 0 0)] /\
+  load_build_list (obs_damaged U [(c, v 1 2 0)]) (fun _ => O) 20 root = Err.
+Proof. vm_compute. split; reflexivity. Qed.
+
+(** the repository lookup: a project below the project at the root of a well-known repository, looked up before and
+    after its neighbour; a repository on another host found by dialing prefixes *)
+Example c10_locate_example :
+  let mono := [103; 105; 116; 104; 117; 98; 46; 99; 111; 109; 47; 97; 99; 109; 101; 47; 109; 111; 110; 111] in                     (* "github.com/acme/mono" *)
+  let tool := [103; 105; 116; 104; 117; 98; 46; 99; 111; 109; 47; 97; 99; 109; 101; 47; 109; 111; 110; 111; 47; 116; 111; 111; 108; 64; 118; 50] in                     (* "github.com/acme/mono/tool@v2" *)
+  let other := [103; 105; 116; 46; 101; 120; 97; 109; 112; 108; 101; 46; 116; 101; 115; 116; 47; 116; 101; 97; 109; 47; 114] in                   (* "git.example.test/team/r" *)
+  let pkg := [103; 105; 116; 46; 101; 120; 97; 109; 112; 108; 101; 46; 116; 101; 115; 116; 47; 116; 101; 97; 109; 47; 114; 47; 116; 111; 111; 108; 115; 47; 112; 107; 103] in                       (* "git.example.test/team/r/tools/pkg" *)
+  let dial := dial_of [mono; other] in
+  let M1 := snd (find_project_repository dial [] tool) in
+  let M2 := snd (find_project_repository dial (snd (find_project_repository dial [] mono)) pkg) in
+  memo_reach dial M1 /\ memo_reach dial M2 /\
+  fst (find_project_repository dial M1 mono) = Some (mono, []) /\
+  fst (find_project_repository dial M2 tool) = Some (mono, [116; 111; 111; 108]) /\
+  fst (find_project_repository dial M1 pkg) = Some (other, [116; 111; 111; 108; 115; 47; 112; 107; 103]).
+Proof.
+  cbv zeta. split; [|split]; [repeat constructor..|]. vm_compute. repeat split; reflexivity.
 Qed.
